@@ -125,6 +125,15 @@ Definition s_in_hint (s : snode) (k : nat) : hint :=
 Definition s_label_of (s : snode) : string :=
   match s with SFn l _ _ => l | SMac l _ _ _ _ _ _ _ _ => l end.
 
+(* the j-th child the creator made (out of range: the default function node) *)
+Definition dispatch {R} (f : snode -> R) (dflt : R) : list (sbody snode) -> nat -> R :=
+  fix go (sb : list (sbody snode)) (j : nat) {struct sb} : R :=
+    match sb, j with
+    | e :: _, 0 => f (sb_node e)
+    | _ :: r, S j' => go r j'
+    | [], _ => dflt
+    end.
+
 (* ================================================================================== *)
 (* Part 3: the value setter with its push to the value_receiver                        *)
 Definition set_fn (v : vnode) (k : nat) (x : val) : vnode :=
@@ -146,13 +155,7 @@ Fixpoint set_in (s : snode) (v : vnode) (k : nat) (x : val) {struct s} : vnode :
   | SFn _ _ _ => set_fn v k x
   | SMac _ _ _ recvs _ _ body _ _ =>
       set_mac_with
-        (fun j vj k' =>
-           (fix go (sb : list (sbody snode)) (j : nat) {struct sb} : vnode :=
-              match sb, j with
-              | e :: _, 0 => set_in (sb_node e) vj k' x
-              | _ :: r, S j' => go r j'
-              | [], _ => set_fn vj k' x
-              end) body j)
+        (fun j vj k' => dispatch (fun s' => set_in s' vj k' x) (set_fn vj k' x) body j)
         recvs v k x
   end.
 
@@ -171,12 +174,7 @@ Fixpoint set_in_at (s : snode) (v : vnode) (p : list kidref) (k : nat) (x : val)
                        | _ => v end
             | KBody j =>
                 VN ins outs c ui
-                   (upd_nth j ((fix go (sb : list (sbody snode)) (j0 : nat) {struct sb} : vnode :=
-                                  match sb, j0 with
-                                  | e :: _, 0 => set_in_at (sb_node e) (nth j vb dv) p' k x
-                                  | _ :: r, S j' => go r j'
-                                  | [], _ => nth j vb dv
-                                  end) body j) vb)
+                   (upd_nth j (dispatch (fun s' => set_in_at s' (nth j vb dv) p' k x) (nth j vb dv) body j) vb)
             end
           end
       end
@@ -216,15 +214,8 @@ Fixpoint set_out_at (s : snode) (v : vnode) (p : list kidref) (l : nat) (x : val
                 | _ => (v, [])
                 end
             | KBody j =>
-                let '(vj', ps, orecv) :=
-                  (fix go (sb : list (sbody snode)) (j' : nat) {struct sb}
-                     : vnode * list (nat * val) * list (option nat) :=
-                     match sb, j' with
-                     | e :: _, 0 => (set_out_at (sb_node e) (nth j vb dv) p' l x, sb_orecv e)
-                     | _ :: r, S j'' => go r j''
-                     | [], _ => (nth j vb dv, [], [])
-                     end) body j in
-                let '(outs', q) := apply_pushes orecv ps outs in
+                let '(vj', ps) := dispatch (fun s' => set_out_at s' (nth j vb dv) p' l x) (nth j vb dv, []) body j in
+                let '(outs', q) := apply_pushes (sb_orecv (nth j body dsb)) ps outs in
                 (VN ins outs' c ui (upd_nth j vj' vb), q)
             end
           end
@@ -328,13 +319,7 @@ Fixpoint run (s : snode) (v : vnode) {struct s} : rres :=
   | SMac _ _ _ _ kept uirecv body _ order =>
       run_mac_with
         (fun j vj k x => set_in (sb_node (nth j body dsb)) vj k x)
-        (fun j vj =>
-           (fix go (sb : list (sbody snode)) (j : nat) {struct sb} : rres :=
-              match sb, j with
-              | e :: _, 0 => run (sb_node e) vj
-              | _ :: r, S j' => go r j'
-              | [], _ => run_fn false vj
-              end) body j)
+        (fun j vj => dispatch (fun s' => run s' vj) (run_fn false vj) body j)
         kept uirecv (cinfo_of body) order v
   end.
 
@@ -448,6 +433,32 @@ Definition configure (fl : flow) (kept : list bool) (nbody : nat) : option (bool
 Definition new_fn (label : string) (idf : bool) (args : list arg) : snode * vnode :=
   (SFn label idf (List.length args), VN (map arg_val args) [None] None [] []).
 
+(* the graph creator: the children in order; [bld] constructs a nested macro *)
+Definition script (bld : mdef -> string -> option (snode * vnode)) (np : nat)
+  : list (stmt mdef) -> list (sbody snode) -> list vnode -> option (list (sbody snode) * list vnode) :=
+  fix go (b : list (stmt mdef)) (sofar : list (sbody snode)) (vsofar : list vnode) {struct b} :=
+    match b with
+    | [] => Some (sofar, vsofar)
+    | st :: r =>
+        if forallb (arg_ok np sofar) (s_args st) then
+          match s_mac st with
+          | None =>
+              let '(s', v') := new_fn (s_label st) false (s_args st) in
+              go r (sofar ++ [SB s' (map arg_conn (s_args st)) [None]]) (vsofar ++ [v'])
+          | Some d' =>
+              match bld d' (s_label st) with
+              | Some (s', v') =>
+                  if Nat.leb (List.length (s_args st)) (s_nins s') then
+                    go r (sofar ++ [SB s' (pad (s_nins s') (map arg_conn (s_args st)) [])
+                                       (repeat None (s_nouts s'))])
+                         (vsofar ++ [apply_args s' v' 0 (s_args st)])
+                  else None
+              | None => None
+              end
+          end
+        else None
+    end.
+
 Fixpoint build (d : mdef) (label : string) {struct d} : option (snode * vnode) :=
   match d with MDef ps body rets fl =>
     let np := List.length ps in
@@ -456,30 +467,7 @@ Fixpoint build (d : mdef) (label : string) {struct d} : option (snode * vnode) :
     let ins := map p_default ps in                         (* StaticNode._setup_node          *)
     let outs := repeat (@None Z) (List.length rets) in
     let ui := map (fun p => VN [p_default p] [None] None [] []) ps in   (* interface nodes *)
-    (* the graph creator *)
-    match (fix go (b : list (stmt mdef)) (sofar : list (sbody snode)) (vsofar : list vnode) {struct b}
-             : option (list (sbody snode) * list vnode) :=
-             match b with
-             | [] => Some (sofar, vsofar)
-             | st :: r =>
-                 if forallb (arg_ok np sofar) (s_args st) then
-                   match s_mac st with
-                   | None =>
-                       let '(s', v') := new_fn (s_label st) false (s_args st) in
-                       go r (sofar ++ [SB s' (map arg_conn (s_args st)) [None]]) (vsofar ++ [v'])
-                   | Some d' =>
-                       match build d' (s_label st) with
-                       | Some (s', v') =>
-                           if Nat.leb (List.length (s_args st)) (s_nins s') then
-                             go r (sofar ++ [SB s' (pad (s_nins s') (map arg_conn (s_args st)) [])
-                                                (repeat None (s_nouts s'))])
-                                  (vsofar ++ [apply_args s' v' 0 (s_args st)])
-                           else None
-                       | None => None
-                       end
-                   end
-                 else None
-             end) body [] [] with
+    match script build np body [] [] with                  (* the graph creator *)
     | None => None
     | Some (sb, vb) =>
         (* macro inputs -> interface nodes, returned channels -> macro outputs *)
@@ -521,25 +509,29 @@ Fixpoint fill (given : list val) (ps : list param) : list val :=
   end.
 
 (* plain python composition of the definition: None = some call lacks an argument *)
+Definition denote_body (den : mdef -> list val -> option (list val)) (args : list val)
+  : list (stmt mdef) -> list (list val) -> option (list (list val)) :=
+  fix go (b : list (stmt mdef)) (env : list (list val)) {struct b} :=
+    match b with
+    | [] => Some env
+    | st :: r =>
+        let avs := map (env_val args env) (s_args st) in
+        match s_mac st with
+        | None => if all_data avs then go r (env ++ [[Some (mlin (vals avs))]]) else None
+        | Some d' =>
+            let full := fill avs (d_params d') in
+            if all_data full then
+              match den d' full with
+              | Some outs => go r (env ++ [outs])
+              | None => None
+              end
+            else None
+        end
+    end.
+
 Fixpoint denote (d : mdef) (args : list val) {struct d} : option (list val) :=
   match d with MDef ps body rets _ =>
-    match (fix go (b : list (stmt mdef)) (env : list (list val)) {struct b} : option (list (list val)) :=
-             match b with
-             | [] => Some env
-             | st :: r =>
-                 let avs := map (env_val args env) (s_args st) in
-                 match s_mac st with
-                 | None => if all_data avs then go r (env ++ [[Some (mlin (vals avs))]]) else None
-                 | Some d' =>
-                     let full := fill avs (d_params d') in
-                     if all_data full then
-                       match denote d' full with
-                       | Some outs => go r (env ++ [outs])
-                       | None => None
-                       end
-                     else None
-                 end
-             end) body [] with
+    match denote_body denote args body [] with
     | Some env => Some (map (fun la => env_val args env (snd la)) rets)
     | None => None
     end
@@ -576,29 +568,32 @@ Definition flow_ok (fl : flow) (body : list (stmt mdef)) : bool :=
 
 Definition d_nouts (d : mdef) : nat := List.length (d_rets d).
 
+Definition ref_ok (np : nat) (nouts : list nat) (allow_const : bool) (a : arg) : bool :=
+  match a with
+  | AParam i => Nat.ltb i np
+  | AOut j l => Nat.ltb j (List.length nouts) && Nat.ltb l (nth j nouts 0)
+  | AConst _ => allow_const
+  end.
+
+Definition wf_body (wf : mdef -> bool) (np : nat) (rets : list (string * arg))
+  : list (stmt mdef) -> list nat -> bool :=
+  fix go (b : list (stmt mdef)) (nouts : list nat) {struct b} : bool :=
+    match b with
+    | [] => forallb (fun la => ref_ok np nouts false (snd la)) rets
+    | st :: r =>
+        forallb (ref_ok np nouts true) (s_args st) &&
+        match s_mac st with
+        | None => go r (nouts ++ [1])
+        | Some d' =>
+            wf d' && Nat.leb (List.length (s_args st)) (List.length (d_params d')) &&
+            forallb (fun p => is_data (p_default p)) (skipn (List.length (s_args st)) (d_params d')) &&
+            go r (nouts ++ [d_nouts d'])
+        end
+    end.
+
 Fixpoint wfd (d : mdef) {struct d} : bool :=
   match d with MDef ps body rets fl =>
-    let np := List.length ps in
-    nodup_str (map fst rets) && flow_ok fl body &&
-    (fix go (b : list (stmt mdef)) (nouts : list nat) {struct b} : bool :=
-       match b with
-       | [] => forallb (fun la => match snd la with
-                                  | AParam i => Nat.ltb i np
-                                  | AOut j l => Nat.ltb j (List.length nouts) && Nat.ltb l (nth j nouts 0)
-                                  | AConst _ => false end) rets
-       | st :: r =>
-           forallb (fun a => match a with
-                             | AParam i => Nat.ltb i np
-                             | AOut j l => Nat.ltb j (List.length nouts) && Nat.ltb l (nth j nouts 0)
-                             | AConst _ => true end) (s_args st) &&
-           match s_mac st with
-           | None => go r (nouts ++ [1])
-           | Some d' =>
-               wfd d' && Nat.leb (List.length (s_args st)) (List.length (d_params d')) &&
-               forallb (fun p => is_data (p_default p)) (skipn (List.length (s_args st)) (d_params d')) &&
-               go r (nouts ++ [d_nouts d'])
-           end
-       end) body []
+    nodup_str (map fst rets) && flow_ok fl body && wf_body wfd (List.length ps) rets body []
   end.
 
 (* no returned channel is returned twice, at any depth (guard of the _partial theorems: the
@@ -610,15 +605,14 @@ Definition arg_eqb (a b : arg) : bool :=
   | AConst z, AConst z' => Z.eqb z z'
   | _, _ => false
   end.
+Definition all_nested (f : mdef -> bool) : list (stmt mdef) -> bool :=
+  fix go (b : list (stmt mdef)) : bool :=
+    match b with
+    | [] => true
+    | st :: r => match s_mac st with Some d' => f d' | None => true end && go r
+    end.
 Fixpoint rets_distinct (d : mdef) {struct d} : bool :=
-  match d with MDef _ body rets _ =>
-    nodupb arg_eqb (map snd rets) &&
-    (fix go (b : list (stmt mdef)) : bool :=
-       match b with
-       | [] => true
-       | st :: r => match s_mac st with Some d' => rets_distinct d' | None => true end && go r
-       end) body
-  end.
+  match d with MDef _ body rets _ => nodupb arg_eqb (map snd rets) && all_nested rets_distinct body end.
 
 (* ================================================================================== *)
 (* Part 7: scenarios and observations                                                   *)
